@@ -67,9 +67,27 @@ def classify(tr, line, clause):
                                        "tsig" if cfg["key"] else "notsig", int(cfg["pt"]))
 
 
+def _rr(sec, name, kind, k, nrd=1, n1=()):
+    return {"op": "rr", "sec": sec, "name": name, "kind": kind, "n1": list(n1), "n2": [], "k": k, "nrd": nrd,
+            "ttl": [0, 300], "form": "plain"}
+
+
+A_EX = [[97], EX]
+B_A_EX = [[98], [97], EX]
+# one fixed member of the Gen_Renderer universe that is always included: in every section a large record set is
+# followed by small ones, so "skip the set that does not fit and carry on" differs from "keep a prefix"
+SEED_MESSAGE = [{"op": "hdr", "id": 4660, "opcode": 0, "bits": 256, "rcode": 0, "origin": False, "edns": ["none"]},
+                {"op": "q", "name": A_EX, "type": 1, "cls": 1},
+                _rr(1, A_EX, "TXT", 100, 2), _rr(1, B_A_EX, "TXT", 200), _rr(1, B_A_EX, "A", 1, 2),
+                _rr(2, A_EX, "TXT", 100), _rr(2, A_EX, "NS", 1, 1, B_A_EX),
+                _rr(3, B_A_EX, "TXT", 100), _rr(3, [[111, 116, 104, 101, 114]], "A", 1),
+                {"op": "end"}]
+
+
 def make_jobs(ctx, scripts, want, lo=520, hi=900):
     jobs = []
     used = 0
+    scripts = [SEED_MESSAGE] + list(scripts)
     for i, s in enumerate(scripts):
         if used >= want:
             break
